@@ -22,6 +22,7 @@ def extract(repo):
                 vals.append(r)
     if vals is None:
         raise TranslateError("clifford_values not found")
+    period, clifford_step = selection_logic(repo, fn)
     entries = []
 
     def name_test(t):
@@ -78,7 +79,83 @@ def extract(repo):
             node = node.orelse[0]
         else:
             raise TranslateError("unexpected else in gate-name chain")
-    return {"values": vals, "entries": entries}
+    return {"values": vals, "entries": entries, "period": period, "clifford_step": clifford_step}
+
+
+def _same(node, src):
+    return ast.dump(node) == ast.dump(ast.parse(src).body[0])
+
+
+def selection_logic(repo, fn):
+    """The way the angle of the gate selects a row of the table (everything around the table itself):
+         guard chain   not gate.is_clifford(abs_tol) -> raise ; name not in the four rotations -> return gate ;
+                       isclose(gate.parameter, 0) -> return []
+         selection     first value of clifford_values with  parameter % P  close to  value % P   (P extracted)
+         None -> raise ; default gate_list = [] ; return gate_list
+       and Gate.is_clifford: parameter % Q close to 0 (Q extracted).  Fail closed on any other shape."""
+    body = [n for n in fn.body if not (isinstance(n, ast.Expr) and isinstance(n.value, ast.Constant))]
+    if len(body) != 7:
+        raise TranslateError("decompose_gate_to_cliffords: expected 7 statements, found %d" % len(body))
+    guard, a_vals, a_sel, none_raise, default, _chain, ret = body
+    # guard chain
+    if not (isinstance(guard, ast.If) and ast.dump(guard.test) == ast.dump(ast.parse("not gate.is_clifford(abs_tol)").body[0].value)
+            and len(guard.body) == 1 and isinstance(guard.body[0], ast.Raise)
+            and len(guard.orelse) == 1 and isinstance(guard.orelse[0], ast.If)):
+        raise TranslateError("decompose_gate_to_cliffords: unexpected is_clifford guard")
+    g2 = guard.orelse[0]
+    if not (ast.dump(g2.test) == ast.dump(ast.parse('gate.name not in {"RX", "RY", "RZ", "PHASE"}').body[0].value)
+            and len(g2.body) == 1 and _same(g2.body[0], "return gate")
+            and len(g2.orelse) == 1 and isinstance(g2.orelse[0], ast.If)):
+        raise TranslateError("decompose_gate_to_cliffords: unexpected non-rotation guard")
+    g3 = g2.orelse[0]
+    if not (ast.dump(g3.test) == ast.dump(ast.parse("isclose(gate.parameter, 0, abs_tol=abs_tol)").body[0].value)
+            and len(g3.body) == 1 and _same(g3.body[0], "return []") and not g3.orelse):
+        raise TranslateError("decompose_gate_to_cliffords: unexpected zero-angle guard")
+    # selection: next((value for value in clifford_values if isclose(gate.parameter % P, value % P, abs_tol=abs_tol)), None)
+    try:
+        call = a_sel.value
+        gen = call.args[0]
+        test = gen.generators[0].ifs[0]
+        lhs, rhs = test.args[0], test.args[1]
+        p1, h1 = pi_multiple(lhs.right)
+        p2, h2 = pi_multiple(rhs.right)
+        shape_ok = (isinstance(a_sel, ast.Assign) and a_sel.targets[0].id == "clifford_parameter"
+                    and call.func.id == "next" and len(call.args) == 2 and isinstance(call.args[1], ast.Constant) and call.args[1].value is None
+                    and isinstance(gen, ast.GeneratorExp) and _same(ast.Expr(gen.elt), "value")
+                    and len(gen.generators) == 1 and len(gen.generators[0].ifs) == 1
+                    and ast.dump(gen.generators[0].target) == ast.dump(ast.parse("value", mode="eval").body).replace("Load", "Store")
+                    and ast.dump(gen.generators[0].iter) == ast.dump(ast.parse("clifford_values", mode="eval").body)
+                    and test.func.id == "isclose" and len(test.args) == 2
+                    and [k.arg for k in test.keywords] == ["abs_tol"] and test.keywords[0].value.id == "abs_tol"
+                    and isinstance(lhs, ast.BinOp) and isinstance(lhs.op, ast.Mod) and ast.dump(lhs.left) == ast.dump(ast.parse("gate.parameter", mode="eval").body)
+                    and isinstance(rhs, ast.BinOp) and isinstance(rhs.op, ast.Mod) and ast.dump(rhs.left) == ast.dump(ast.parse("value", mode="eval").body)
+                    and h1 and h2 and p1 == p2)
+    except (AttributeError, IndexError) as e:
+        raise TranslateError("decompose_gate_to_cliffords: unexpected selection of clifford_parameter (%s)" % e)
+    if not shape_ok:
+        raise TranslateError("decompose_gate_to_cliffords: unexpected selection of clifford_parameter")
+    if not (isinstance(none_raise, ast.If) and ast.dump(none_raise.test) == ast.dump(ast.parse("clifford_parameter is None").body[0].value)
+            and len(none_raise.body) == 1 and isinstance(none_raise.body[0], ast.Raise) and not none_raise.orelse):
+        raise TranslateError("decompose_gate_to_cliffords: unexpected handling of an unmatched angle")
+    if not _same(default, "gate_list = []") or not _same(ret, "return gate_list"):
+        raise TranslateError("decompose_gate_to_cliffords: unexpected default / return")
+    # Gate.is_clifford
+    gtree = parse(repo / "tangelo/linq/gate.py")
+    isc = find_def(gtree, "is_clifford", cls="Gate")
+    step = None
+    for n in ast.walk(isc):
+        if isinstance(n, ast.Return) and isinstance(n.value, ast.Call) and getattr(n.value.func, "id", None) == "isclose":
+            c = n.value
+            if not (len(c.args) == 2 and isinstance(c.args[0], ast.BinOp) and isinstance(c.args[0].op, ast.Mod)
+                    and ast.dump(c.args[0].left) == ast.dump(ast.parse("self.parameter", mode="eval").body)
+                    and isinstance(c.args[1], ast.Constant) and c.args[1].value == 0):
+                raise TranslateError("Gate.is_clifford: unexpected angle test")
+            step, hp = pi_multiple(c.args[0].right)
+            if not hp:
+                raise TranslateError("Gate.is_clifford: step is not a multiple of pi")
+    if step is None:
+        raise TranslateError("Gate.is_clifford: angle test not found")
+    return p1, step
 
 
 def emit(t):
@@ -91,4 +168,7 @@ def emit(t):
     L.append(";\n".join('  ("%s", (%d)%%Z, %s)' % (g, units_of_pi8(a, "clifford angle"), coq_string_list(ns))
                         for g, a, ns in t["entries"]))
     L.append("].")
+    L.append("(* selection: first value v with  k mod clifford_period = v mod clifford_period ; is_clifford: k mod clifford_step = 0 *)")
+    L.append("Definition clifford_period : Z := (%d)%%Z." % units_of_pi8(t["period"], "clifford period"))
+    L.append("Definition clifford_step : Z := (%d)%%Z." % units_of_pi8(t["clifford_step"], "clifford step"))
     return "\n".join(L) + "\n"
